@@ -355,6 +355,10 @@ def run(ctx):
     r1.expect_min(8)
 
     r2 = rep.rule('C12.2-maildir-status-table', 'R-TABLE', 'maildir(): child status 0 -> continue; crash and every other status -> exit 111 (all 256 statuses + signals)')
+    # the status macros every verdict on a child process goes through (wait.h): as functions of the status word
+    from rules import libtab as _lt
+    for inst_, v_ in sorted(_lt.waitmacro_sites(db, 'qmail-local.c').items()):
+        r2.check(v_[0], inst_, v_[1], v_[2], v_[3])
     mf = prog.fn('maildir', 'qmail-local.c')
     SH = StatusHooks('qmail-local.c:maildir')
     e2 = Engine(db, prog, SH)
